@@ -318,4 +318,79 @@ theorem filter_drops_line (c : Compiler) (hc : c = .javac ∨ c = .kotlinc) (p :
   rw [render_strip c hc p hp hnl is hwf hsep, findAll_render c hc _ (wf_strip c hc p is hwf),
     expected_strip c hc p is, groupMsgs_eq_groupByFile]
 
+/-! ## filters that do not occur -/
+
+theorem applyFilters_absent (fs : List (List Char)) (out : List Char)
+    (h : ∀ p ∈ fs, hasInfix p out = false ∨ p = []) : applyFilters fs out = out := by
+  induction fs with
+  | nil => rfl
+  | cons p ps ih =>
+    have e : removeLit p out = out := by
+      rcases h p (by simp) with h1 | h1
+      · exact removeLit_absent p out h1
+      · subst h1; rfl
+    have : applyFilters (p :: ps) out = applyFilters ps (removeLit p out) := rfl
+    rw [this, e]
+    exact ih (fun q hq => h q (by simp [hq]))
+
+/-- filters whose text does not occur in the output change nothing -/
+theorem filter_absent (c : Compiler) (fs : List (List Char)) (out : List Char)
+    (h : ∀ p ∈ fs, hasInfix p out = false ∨ p = []) : analyze c fs out = analyze c [] out := by
+  unfold analyze
+  rw [applyFilters_absent fs out h, applyFilters_nil]
+
+/-! ## C. illustrations (javac, three files) -/
+
+def exAlpha : List Char := "/tmp/tmpab12cd_9/src/alpha/Main.java".toList
+def exBeta : List Char := "/tmp/tmpab12cd_9/src/beta/Main.java".toList
+def exGamma : List Char := "/tmp/tmpab12cd_9/src/gamma/Main.java".toList
+
+def exBatch : List Item :=
+  [ .error exAlpha "3".toList [] "incompatible types: String cannot be converted to int".toList 0 [],
+    .error exBeta "7".toList [] "cannot find symbol".toList 0 ["  symbol:   variable x".toList],
+    .error exGamma "12".toList [] "missing return statement".toList 0 [],
+    .summary "3".toList ]
+
+/-- the whole header line of beta's error -/
+def exHeaderFilter : List Char :=
+  "/tmp/tmpab12cd_9/src/beta/Main.java:7: error: cannot find symbol".toList
+
+/-- a fragment of beta's message -/
+def exFragmentFilter : List Char := " find symbol".toList
+
+/-- the hypotheses of `filter_drops_line` are met by the batch and the header filter -/
+example : exHeaderFilter ≠ [] ∧ '\n' ∉ exHeaderFilter ∧ (∀ i ∈ exBatch, WFItem .javac i) ∧
+    (∀ i ∈ exBatch, ∀ x ∈ itemLines .javac i,
+      (isHdr .javac exHeaderFilter i = true ∧ x = exHeaderFilter) ∨ hasInfix exHeaderFilter x = false) ∧
+    (exBatch.filter fun i => !isHdr .javac exHeaderFilter i).length = 3 := by
+  decide +kernel
+
+/-- without a filter all three files are reported -/
+theorem ex_no_filter :
+    analyze .javac [] (render .javac exBatch) =
+      ⟨false, [(exAlpha, ["3: error: incompatible types: String cannot be converted to int".toList]),
+               (exBeta, ["7: error: cannot find symbol".toList]),
+               (exGamma, ["12: error: missing return statement".toList])]⟩ := by
+  decide +kernel
+
+/-- (1) a filter equal to the whole header line of beta's error removes exactly beta -/
+theorem ex_header_filter :
+    analyze .javac [exHeaderFilter] (render .javac exBatch) =
+      ⟨false, [(exAlpha, ["3: error: incompatible types: String cannot be converted to int".toList]),
+               (exGamma, ["12: error: missing return statement".toList])]⟩ := by
+  decide +kernel
+
+/-- (2) a filter equal to a fragment of beta's message does **not** disregard the diagnostic:
+beta stays in the result, with the shortened message -/
+theorem ex_fragment_filter :
+    analyze .javac [exFragmentFilter] (render .javac exBatch) =
+      ⟨false, [(exAlpha, ["3: error: incompatible types: String cannot be converted to int".toList]),
+               (exBeta, ["7: error: cannot".toList]),
+               (exGamma, ["12: error: missing return statement".toList])]⟩ := by
+  decide +kernel
+
+/-- the hypotheses of `filter_absent` are met by a filter that does not occur -/
+example : ∀ p ∈ ["no such text".toList, []], hasInfix p (render .javac exBatch) = false ∨ p = [] := by
+  decide +kernel
+
 end Heph.Diag
